@@ -585,3 +585,357 @@ Proof.
   - eapply ple_trans; [exact Hxh|]. eapply ple_trans; [exact E|exact Hyl].
   - eapply ple_trans; [exact Hyh|]. eapply ple_trans; [exact E|exact Hxl].
 Qed.
+
+(* ------------------------------------------------------------------ point in polygon (ray casting) *)
+(* > 0: q is on the left of the directed line a -> b *)
+Definition orient (a b q : pt) : Q := (px b - px a) * (py q - py a) - (py b - py a) * (px q - px a).
+
+Lemma div_lt_pos z n d : 0 < d -> (z < n / d <-> z * d < n).
+Proof.
+  intros Hd. assert (E : n / d * d == n) by (field; lra). remember (n / d) as r eqn:Er. clear Er.
+  split; intros H.
+  - assert (z * d < r * d) by (apply Qmult_lt_r; assumption). lra.
+  - destruct (Qlt_le_dec z r) as [Hl|Hl]; [exact Hl|]. exfalso.
+    assert (r * d <= z * d) by (apply Qmult_le_compat_r; lra). lra.
+Qed.
+Lemma div_lt_neg z n d : d < 0 -> (z < n / d <-> n < z * d).
+Proof.
+  intros Hd. assert (E : n / d * d == n) by (field; lra). remember (n / d) as r eqn:Er. clear Er.
+  split; intros H.
+  - assert (z * (- d) < r * (- d)) by (apply Qmult_lt_r; lra). lra.
+  - destruct (Qlt_le_dec z r) as [Hl|Hl]; [exact Hl|]. exfalso.
+    assert (r * (- d) <= z * (- d)) by (apply Qmult_le_compat_r; lra). lra.
+Qed.
+
+(* the ray from q to the right crosses the edge pj -> pi iff the edge passes the level of q upwards with q on
+   its left, or downwards with q on its right (half-open in y, as in the Go code) *)
+Lemma crosses_iff x y pi pj :
+  crosses x y pi pj = true <->
+  (py pi <= y /\ y < py pj /\ orient pj pi (x, y) < 0) \/ (py pj <= y /\ y < py pi /\ 0 < orient pj pi (x, y)).
+Proof.
+  destruct pi as [ix iy], pj as [jx jy]. unfold crosses, orient. qsimp.
+  rewrite andb_true_iff, orb_true_iff, !andb_true_iff, !Qle_bool_iff, !Qltb_lt.
+  remember ((jx - ix) * (y - iy) / (jy - iy)) as r eqn:Er.
+  assert (Hr : forall z, z < r <-> z < (jx - ix) * (y - iy) / (jy - iy)) by (intros z; rewrite Er; reflexivity).
+  clear Er.
+  split.
+  - intros [[[H1 H2]|[H1 H2]] H3].
+    + left. split; [exact H1|]. split; [exact H2|].
+      assert (Hx : x - ix < r) by lra. apply Hr in Hx.
+      assert (Hd : 0 < jy - iy) by lra.
+      pose proof (proj1 (div_lt_pos _ _ _ Hd) Hx) as Hy. nra.
+    + right. split; [exact H1|]. split; [exact H2|].
+      assert (Hx : x - ix < r) by lra. apply Hr in Hx.
+      assert (Hd : jy - iy < 0) by lra.
+      pose proof (proj1 (div_lt_neg _ _ _ Hd) Hx) as Hy. nra.
+  - intros [(H1 & H2 & H3)|(H1 & H2 & H3)].
+    + split; [left; split; assumption|].
+      assert (Hx : x - ix < r) by (apply Hr; apply div_lt_pos; lra). lra.
+    + split; [right; split; assumption|].
+      assert (Hx : x - ix < r) by (apply Hr; apply div_lt_neg; lra). lra.
+Qed.
+
+(* the same as a boolean formula: the edge is active when exactly one end is above the level of q *)
+Lemma crosses_bool x y pi pj :
+  crosses x y pi pj =
+  xorb (Qltb y (py pi)) (Qltb y (py pj)) &&
+  (if Qltb y (py pi) then Qltb 0 (orient pj pi (x, y)) else Qltb (orient pj pi (x, y)) 0).
+Proof.
+  destruct (crosses x y pi pj) eqn:E.
+  - apply crosses_iff in E. destruct E as [(H1 & H2 & H3)|(H1 & H2 & H3)].
+    + apply Qltb_ge in H1. apply Qltb_lt in H2. apply Qltb_lt in H3. rewrite H1, H2, H3. reflexivity.
+    + apply Qltb_ge in H1. apply Qltb_lt in H2. apply Qltb_lt in H3. rewrite H1, H2, H3. reflexivity.
+  - symmetry. destruct (Qltb y (py pi)) eqn:Ui; destruct (Qltb y (py pj)) eqn:Uj; cbn [xorb andb]; try reflexivity.
+    + destruct (Qltb 0 (orient pj pi (x, y))) eqn:Es; [|reflexivity].
+      apply Qltb_lt in Ui. apply Qltb_ge in Uj. apply Qltb_lt in Es.
+      assert (C : crosses x y pi pj = true) by (apply crosses_iff; right; repeat split; assumption). congruence.
+    + destruct (Qltb (orient pj pi (x, y)) 0) eqn:Es; [|reflexivity].
+      apply Qltb_ge in Ui. apply Qltb_lt in Uj. apply Qltb_lt in Es.
+      assert (C : crosses x y pi pj = true) by (apply crosses_iff; left; repeat split; assumption). congruence.
+Qed.
+
+Lemma tri_identities a b c q :
+  orient c a q + orient a b q + orient b c q == orient a b c /\
+  orient b c q * (py a - py q) + orient c a q * (py b - py q) + orient a b q * (py c - py q) == 0.
+Proof. destruct a, b, c, q. unfold orient; qsimp. split; ring. Qed.
+
+Ltac bool_to_prop :=
+  repeat match goal with
+  | H : Qltb _ _ = true |- _ => apply Qltb_lt in H
+  | H : Qltb _ _ = false |- _ => apply Qltb_ge in H
+  end.
+
+(* counter-clockwise triangle: strictly inside -> true, strictly outside -> false *)
+Lemma tri_flat a b c : orient a b c == (px b - px a) * (py c - py a) - (py b - py a) * (px c - px a).
+Proof. reflexivity. Qed.
+
+Lemma pos_mul_nonpos_sum s1 s2 s3 d1 d2 d3 :
+  0 < s1 -> 0 < s2 -> 0 < s3 -> d1 <= 0 -> d2 <= 0 -> d3 <= 0 ->
+  s1 * d1 + s2 * d2 + s3 * d3 == 0 -> d1 == 0 /\ d2 == 0 /\ d3 == 0.
+Proof.
+  intros P1 P2 P3 N1 N2 N3 H.
+  assert (s1 * d1 <= 0) by nra. assert (s2 * d2 <= 0) by nra. assert (s3 * d3 <= 0) by nra.
+  assert (Z1 : s1 * d1 == 0) by lra. assert (Z2 : s2 * d2 == 0) by lra. assert (Z3 : s3 * d3 == 0) by lra.
+  apply Qmult_integral in Z1. apply Qmult_integral in Z2. apply Qmult_integral in Z3.
+  repeat split; [destruct Z1|destruct Z2|destruct Z3]; lra.
+Qed.
+
+(* counter-clockwise triangle: strictly inside -> true, strictly outside -> false *)
+Lemma point_in_triangle_ccw a b c q : 0 < orient a b c ->
+  (0 < orient a b q -> 0 < orient b c q -> 0 < orient c a q -> point_inside [a; b; c] q = true) /\
+  (orient a b q < 0 \/ orient b c q < 0 \/ orient c a q < 0 -> point_inside [a; b; c] q = false).
+Proof.
+  intros HA. destruct (tri_identities a b c q) as [I1 I2]. pose proof (tri_flat a b c) as I3.
+  unfold point_inside. cbn [last ray_loop]. rewrite !crosses_bool.
+  replace (px q, py q) with q by (destruct q; reflexivity).
+  remember (orient c a q) as S1 eqn:E1. remember (orient a b q) as S2 eqn:E2. remember (orient b c q) as S3 eqn:E3.
+  remember (orient a b c) as A eqn:EA. clear E1 E2 E3 EA.
+  remember (py a) as ya. remember (py b) as yb. remember (py c) as yc. remember (py q) as y.
+  remember (px b - px a) as X1. remember (px c - px a) as X2.
+  clear Heqya Heqyb Heqyc Heqy HeqX1 HeqX2.
+  split.
+  - intros H2 H3 H1.
+    destruct (Qltb y ya) eqn:Ua; destruct (Qltb y yb) eqn:Ub; destruct (Qltb y yc) eqn:Uc; cbn [xorb andb negb];
+      repeat match goal with |- context [Qltb ?u ?v] => destruct (Qltb u v) eqn:? end; cbn [xorb andb negb];
+      try reflexivity; exfalso; bool_to_prop; try nra.
+    (* all three vertices at or below the level of q *)
+    destruct (pos_mul_nonpos_sum S3 S1 S2 (ya - y) (yb - y) (yc - y)) as (Z1 & Z2 & Z3); try lra.
+    assert (EA : A == 0).
+    { rewrite I3. setoid_replace (yc - ya) with 0 by lra. setoid_replace (yb - ya) with 0 by lra. ring. }
+    lra.
+  - intros Hout.
+    destruct (Qltb y ya) eqn:Ua; destruct (Qltb y yb) eqn:Ub; destruct (Qltb y yc) eqn:Uc; cbn [xorb andb negb];
+      repeat match goal with |- context [Qltb ?u ?v] => destruct (Qltb u v) eqn:? end; cbn [xorb andb negb];
+      try reflexivity; exfalso; bool_to_prop; try nra.
+Qed.
+
+(* clockwise triangle *)
+Lemma point_in_triangle_cw a b c q : orient a b c < 0 ->
+  (orient a b q < 0 -> orient b c q < 0 -> orient c a q < 0 -> point_inside [a; b; c] q = true) /\
+  (0 < orient a b q \/ 0 < orient b c q \/ 0 < orient c a q -> point_inside [a; b; c] q = false).
+Proof.
+  intros HA. destruct (tri_identities a b c q) as [I1 I2]. pose proof (tri_flat a b c) as I3.
+  unfold point_inside. cbn [last ray_loop]. rewrite !crosses_bool.
+  replace (px q, py q) with q by (destruct q; reflexivity).
+  remember (orient c a q) as S1 eqn:E1. remember (orient a b q) as S2 eqn:E2. remember (orient b c q) as S3 eqn:E3.
+  remember (orient a b c) as A eqn:EA. clear E1 E2 E3 EA.
+  remember (py a) as ya. remember (py b) as yb. remember (py c) as yc. remember (py q) as y.
+  remember (px b - px a) as X1. remember (px c - px a) as X2.
+  clear Heqya Heqyb Heqyc Heqy HeqX1 HeqX2.
+  split.
+  - intros H2 H3 H1.
+    destruct (Qltb y ya) eqn:Ua; destruct (Qltb y yb) eqn:Ub; destruct (Qltb y yc) eqn:Uc; cbn [xorb andb negb];
+      repeat match goal with |- context [Qltb ?u ?v] => destruct (Qltb u v) eqn:? end; cbn [xorb andb negb];
+      try reflexivity; exfalso; bool_to_prop; try nra.
+    destruct (pos_mul_nonpos_sum (- S3) (- S1) (- S2) (ya - y) (yb - y) (yc - y)) as (Z1 & Z2 & Z3); try lra.
+    assert (EA : A == 0).
+    { rewrite I3. setoid_replace (yc - ya) with 0 by lra. setoid_replace (yb - ya) with 0 by lra. ring. }
+    lra.
+  - intros Hout.
+    destruct (Qltb y ya) eqn:Ua; destruct (Qltb y yb) eqn:Ub; destruct (Qltb y yc) eqn:Uc; cbn [xorb andb negb];
+      repeat match goal with |- context [Qltb ?u ?v] => destruct (Qltb u v) eqn:? end; cbn [xorb andb negb];
+      try reflexivity; exfalso; bool_to_prop; try nra.
+Qed.
+
+(* axis-aligned rectangle *)
+Lemma point_in_rectangle x0 y0 x1 y1 x y : x0 < x1 -> y0 < y1 ->
+  let R := [(x0, y0); (x1, y0); (x1, y1); (x0, y1)] in
+  (x0 < x -> x < x1 -> y0 < y -> y < y1 -> point_inside R (x, y) = true) /\
+  (x < x0 \/ x1 < x \/ y < y0 \/ y1 < y -> point_inside R (x, y) = false).
+Proof.
+  intros Hx Hy R. unfold R, point_inside. cbn [last ray_loop]. rewrite !crosses_bool. unfold orient. qsimp.
+  split.
+  - intros A1 A2 A3 A4.
+    repeat match goal with |- context [Qltb ?u ?v] => destruct (Qltb u v) eqn:? end; cbn [xorb andb negb];
+      try reflexivity; exfalso; bool_to_prop; nra.
+  - intros Hout.
+    repeat match goal with |- context [Qltb ?u ?v] => destruct (Qltb u v) eqn:? end; cbn [xorb andb negb];
+      try reflexivity; exfalso; bool_to_prop; nra.
+Qed.
+
+(* ------------------------------------------------------------------ the sorting order along a line *)
+(* On the carrying line of a segment, "between the end points in the order by (x, then y)" is the same as
+   "on the segment": this is what makes the order-theoretic overlap the geometric one. *)
+Lemma t_cases t : 0 <= t -> t <= 1 -> t == 0 \/ t == 1 \/ (0 < t /\ t < 1).
+Proof. intros. destruct (Qeq_dec t 0); [left; assumption|]. destruct (Qeq_dec t 1); [right; left; assumption|]. right; right. split; lra. Qed.
+
+Lemma seg_at_between_lt a b t : plt a b -> 0 <= t -> t <= 1 ->
+  ple a (seg_at (a, b) t) /\ ple (seg_at (a, b) t) b.
+Proof.
+  destruct a as [ax ay], b as [bx by_]. unfold ple, plt, pt_eq, seg_at; qsimp. intros Hab H0 H1.
+  destruct (t_cases t H0 H1) as [T|[T|[T0 T1]]].
+  - assert (E1 : t * (bx - ax) == 0) by (rewrite T; ring). assert (E2 : t * (by_ - ay) == 0) by (rewrite T; ring).
+    split; [right; split; nra|]. destruct Hab as [Hab|[Hab Hab']]; [left; left; nra|left; right; split; nra].
+  - assert (E1 : t * (bx - ax) == bx - ax) by (rewrite T; ring). assert (E2 : t * (by_ - ay) == by_ - ay) by (rewrite T; ring).
+    split; [|right; split; nra]. destruct Hab as [Hab|[Hab Hab']]; [left; left; nra|left; right; split; nra].
+  - destruct Hab as [Hab|[Hab Hab']].
+    + assert (0 < t * (bx - ax)) by (apply Qmult_lt_0_compat; nra).
+      assert (t * (bx - ax) < bx - ax) by nra.
+      split; left; left; nra.
+    + assert (Z : t * (bx - ax) == 0) by (setoid_replace (bx - ax) with 0 by nra; ring).
+      assert (0 < t * (by_ - ay)) by (apply Qmult_lt_0_compat; nra).
+      assert (t * (by_ - ay) < by_ - ay) by nra.
+      split; left; right; split; nra.
+Qed.
+
+Lemma seg_at_between_gt a b t : plt b a -> 0 <= t -> t <= 1 ->
+  ple b (seg_at (a, b) t) /\ ple (seg_at (a, b) t) a.
+Proof.
+  destruct a as [ax ay], b as [bx by_]. unfold ple, plt, pt_eq, seg_at; qsimp. intros Hab H0 H1.
+  destruct (t_cases t H0 H1) as [T|[T|[T0 T1]]].
+  - assert (E1 : t * (bx - ax) == 0) by (rewrite T; ring). assert (E2 : t * (by_ - ay) == 0) by (rewrite T; ring).
+    split; [|right; split; nra]. destruct Hab as [Hab|[Hab Hab']]; [left; left; nra|left; right; split; nra].
+  - assert (E1 : t * (bx - ax) == bx - ax) by (rewrite T; ring). assert (E2 : t * (by_ - ay) == by_ - ay) by (rewrite T; ring).
+    split; [right; split; nra|]. destruct Hab as [Hab|[Hab Hab']]; [left; left; nra|left; right; split; nra].
+  - destruct Hab as [Hab|[Hab Hab']].
+    + assert (t * (bx - ax) < 0) by nra.
+      assert (bx - ax < t * (bx - ax)) by nra.
+      split; left; left; nra.
+    + assert (Z : t * (bx - ax) == 0) by (setoid_replace (bx - ax) with 0 by nra; ring).
+      assert (t * (by_ - ay) < 0) by nra.
+      assert (by_ - ay < t * (by_ - ay)) by nra.
+      split; left; right; split; nra.
+Qed.
+
+Lemma ple_of_eq a b : pt_eq a b -> ple a b.
+Proof. intros H. right. exact H. Qed.
+
+Lemma ple_eq_l a a' b : pt_eq a a' -> ple a b -> ple a' b.
+Proof. destruct a, a', b. unfold ple, plt, pt_eq; qsimp. lra. Qed.
+Lemma ple_eq_r a b b' : pt_eq b b' -> ple a b -> ple a b'.
+Proof. destruct a, b, b'. unfold ple, plt, pt_eq; qsimp. lra. Qed.
+
+Lemma lex_min_max_cases a b :
+  (plt a b /\ lex_min a b = a /\ lex_max a b = b) \/
+  (plt b a /\ lex_min a b = b /\ lex_max a b = a) \/
+  (pt_eq a b /\ lex_min a b = a /\ lex_max a b = a).
+Proof.
+  unfold lex_min, lex_max.
+  destruct (lex_lt b a) eqn:E1; destruct (lex_lt a b) eqn:E2.
+  - apply lex_lt_true in E1. apply lex_lt_true in E2. exfalso. destruct a, b. unfold plt in *; qsimp. lra.
+  - apply lex_lt_true in E1. right; left. auto.
+  - apply lex_lt_true in E2. left. auto.
+  - apply lex_lt_false in E1. apply lex_lt_false in E2. right; right. split; [|auto].
+    apply ple_antisym; assumption.
+Qed.
+
+(* on the segment -> between its end points in the sorting order *)
+Lemma on_seg_lex_between a b x : on_seg (a, b) x -> lex_between (a, b) x.
+Proof.
+  intros (t & H0 & H1 & Hx). unfold lex_between. cbn [fst snd].
+  assert (Hs : pt_eq (seg_at (a, b) t) x) by (destruct Hx; split; symmetry; assumption).
+  destruct (lex_min_max_cases a b) as [(Hl & -> & ->)|[(Hl & -> & ->)|(He & -> & ->)]].
+  - destruct (seg_at_between_lt a b t Hl H0 H1) as [A B].
+    split; [eapply ple_eq_r; eassumption|eapply ple_eq_l; eassumption].
+  - destruct (seg_at_between_gt a b t Hl H0 H1) as [A B].
+    split; [eapply ple_eq_r; eassumption|eapply ple_eq_l; eassumption].
+  - (* a = b: the segment is the point a *)
+    assert (pt_eq a x).
+    { destruct a as [ax ay], b as [bx by_], x as [xx xy]. unfold pt_eq, seg_at in *; qsimp.
+      destruct He as [E1 E2]. destruct Hx as [X1 X2].
+      assert (Z1 : t * (bx - ax) == 0) by (setoid_replace (bx - ax) with 0 by lra; ring).
+      assert (Z2 : t * (by_ - ay) == 0) by (setoid_replace (by_ - ay) with 0 by lra; ring).
+      split; lra. }
+    split; right; [assumption|destruct H; split; symmetry; assumption].
+Qed.
+
+(* a point of the carrying line whose x (or, on a vertical line, y) lies between the end points is on the segment *)
+Lemma on_line_param ax ay bx by_ xx xy t :
+  (bx - ax) * (xy - ay) - (by_ - ay) * (xx - ax) == 0 -> ~ ax == bx -> t * (bx - ax) == xx - ax ->
+  xy == ay + t * (by_ - ay).
+Proof.
+  intros Hc Ex Ht.
+  assert (E : (bx - ax) * (xy - ay - t * (by_ - ay)) == 0).
+  { setoid_replace ((bx - ax) * (xy - ay - t * (by_ - ay))) with ((bx - ax) * (xy - ay) - (by_ - ay) * (t * (bx - ax))) by ring.
+    rewrite Ht. lra. }
+  apply Qmult_integral in E. destruct E as [E|E]; [exfalso; apply Ex; lra|lra].
+Qed.
+
+Lemma min_max_le a b : a <= b -> Qmin a b == a /\ Qmax a b == b.
+Proof. intros H. split; [apply Q.min_l; exact H|apply Q.max_r; exact H]. Qed.
+Lemma min_max_ge a b : b <= a -> Qmin a b == b /\ Qmax a b == a.
+Proof. intros H. split; [apply Q.min_r; exact H|apply Q.max_l; exact H]. Qed.
+
+Lemma between_on_seg_lt a b x : plt a b -> orient a b x == 0 -> ple a x -> ple x b -> on_seg (a, b) x.
+Proof.
+  destruct a as [ax ay], b as [bx by_], x as [xx xy]. unfold on_seg, seg_at, orient, ple, plt, pt_eq; qsimp.
+  intros Hab Hc H1 H2.
+  destruct Hab as [Hab|[Hab Hab']].
+  - assert (Hr : ax <= xx /\ xx <= bx) by lra.
+    destruct (min_max_le ax bx ltac:(lra)) as [Em EM].
+    destruct (param_exists xx ax bx ltac:(lra) ltac:(lra) ltac:(lra)) as (t & T0 & T1 & Ht).
+    exists t. split; [exact T0|]. split; [exact T1|]. split; [lra|].
+    apply (on_line_param ax ay bx by_ xx xy t); [exact Hc|lra|exact Ht].
+  - assert (Ex : xx == ax) by lra.
+    assert (Hr : ay <= xy /\ xy <= by_) by lra.
+    destruct (min_max_le ay by_ ltac:(lra)) as [Em EM].
+    destruct (param_exists xy ay by_ ltac:(lra) ltac:(lra) ltac:(lra)) as (t & T0 & T1 & Ht).
+    exists t. split; [exact T0|]. split; [exact T1|].
+    assert (Z : t * (bx - ax) == 0) by (setoid_replace (bx - ax) with 0 by lra; ring).
+    split; lra.
+Qed.
+
+Lemma on_seg_swap a b x : on_seg (b, a) x -> on_seg (a, b) x.
+Proof.
+  intros (t & H0 & H1 & Hx). exists (1 - t). split; [lra|]. split; [lra|].
+  destruct a as [ax ay], b as [bx by_], x as [xx xy]. unfold pt_eq, seg_at in *; qsimp.
+  destruct Hx as [X1 X2]. split; [rewrite X1|rewrite X2]; ring.
+Qed.
+
+Lemma orient_swap a b x : orient b a x == - orient a b x.
+Proof. destruct a, b, x. unfold orient; qsimp. ring. Qed.
+
+(* between the end points in the sorting order and on the carrying line -> on the segment *)
+Lemma lex_between_on_seg a b x : orient a b x == 0 -> lex_between (a, b) x -> on_seg (a, b) x.
+Proof.
+  intros Hc [H1 H2]. cbn [fst snd] in *.
+  destruct (lex_min_max_cases a b) as [(Hl & E1 & E2)|[(Hl & E1 & E2)|(He & E1 & E2)]]; rewrite E1 in H1; rewrite E2 in H2.
+  - apply between_on_seg_lt; assumption.
+  - apply on_seg_swap. apply between_on_seg_lt; try assumption. rewrite orient_swap, Hc. reflexivity.
+  - exists 0. split; [lra|]. split; [lra|].
+    pose proof (ple_antisym _ _ H1 H2) as Hax.
+    destruct a as [ax ay], b as [bx by_], x as [xx xy]. unfold pt_eq, seg_at in *; qsimp. split; lra.
+Qed.
+
+Theorem on_seg_iff_lex_between a b x : orient a b x == 0 -> (on_seg (a, b) x <-> lex_between (a, b) x).
+Proof. intros Hc. split; [apply on_seg_lex_between|apply lex_between_on_seg; exact Hc]. Qed.
+
+Lemma plt_eq_l a a' b : pt_eq a a' -> plt a b -> plt a' b.
+Proof. destruct a, a', b. unfold plt, pt_eq; qsimp. lra. Qed.
+Lemma plt_eq_r a b b' : pt_eq b b' -> plt a b -> plt a b'.
+Proof. destruct a, b, b'. unfold plt, pt_eq; qsimp. lra. Qed.
+Lemma pt_eq_sym a b : pt_eq a b -> pt_eq b a.
+Proof. intros [H1 H2]. split; symmetry; assumption. Qed.
+
+(* The geometric reading of the result of CalcLineSegmentOverlap (repaired): for points x of the common line,
+   x is on both segments iff it is on the reported one; and when nothing is reported the two segments share at
+   most one point. *)
+Theorem overlap_geometric l1 l2 :
+  (forall u v, overlap l1 l2 = Some (u, v) ->
+     ~ pt_eq u v /\
+     forall x, orient (fst l1) (snd l1) x == 0 -> orient (fst l2) (snd l2) x == 0 -> orient u v x == 0 ->
+       ((on_seg l1 x /\ on_seg l2 x) <-> on_seg (u, v) x)) /\
+  (overlap l1 l2 = None ->
+     forall x y, on_seg l1 x -> on_seg l2 x -> on_seg l1 y -> on_seg l2 y -> pt_eq x y).
+Proof.
+  pose proof (overlap_matches_spec l1 l2) as Hm. split.
+  - intros u v Ho. rewrite Ho in Hm. destruct (overlap_spec l1 l2) as [[u' v']|] eqn:Es; [|destruct Hm].
+    destruct Hm as [Hu Hv]. destruct (overlap_spec_some l1 l2 u' v' Es) as [Hlt Hiff].
+    assert (Hlt' : plt u v) by (apply (plt_eq_l u'); [apply pt_eq_sym; exact Hu|]; apply (plt_eq_r _ v'); [apply pt_eq_sym; exact Hv|exact Hlt]).
+    split.
+    { intros He. destruct u, v. unfold plt, pt_eq in *; qsimp. lra. }
+    intros x C1 C2 C3. destruct l1 as [a1 b1], l2 as [a2 b2]. cbn [fst snd] in *.
+    rewrite (on_seg_iff_lex_between a1 b1 x C1), (on_seg_iff_lex_between a2 b2 x C2), (on_seg_iff_lex_between u v x C3).
+    rewrite Hiff. unfold lex_between. cbn [fst snd].
+    destruct (lex_min_max_cases u v) as [(_ & -> & ->)|[(Hl & _ & _)|(He & _ & _)]].
+    + split; intros [A B]; split.
+      * eapply ple_eq_l; [apply pt_eq_sym; exact Hu|exact A].
+      * eapply ple_eq_r; [apply pt_eq_sym; exact Hv|exact B].
+      * eapply ple_eq_l; [exact Hu|exact A].
+      * eapply ple_eq_r; [exact Hv|exact B].
+    + exfalso. destruct u, v. unfold plt in *; qsimp. lra.
+    + exfalso. destruct u, v. unfold plt, pt_eq in *; qsimp. lra.
+  - intros Ho x y X1 X2 Y1 Y2. rewrite Ho in Hm. destruct (overlap_spec l1 l2) as [[u' v']|] eqn:Es; [destruct Hm|].
+    destruct l1 as [a1 b1], l2 as [a2 b2].
+    apply (overlap_spec_none _ _ Es); apply on_seg_lex_between; assumption.
+Qed.
